@@ -353,6 +353,32 @@ def _exercise_addr(a):
         pass
 
 
+def make_eui(v, ver, dialect=None):
+    """EUI(v, version=ver, dialect=dialect); for half of the (value, version) pairs a lived-in object:
+    built with another value under another dialect, exercised (hash, ==, str, words, packed, bits, ei, a
+    word read), then moved with the `value` and `dialect` setters"""
+    import zlib
+    import netaddr
+    from netaddr import EUI
+    h = zlib.crc32(('%d:%d' % (ver, v)).encode())
+    if (h & 1) == 0 or ver not in (48, 64) or not isinstance(v, int) or not 0 <= v < (1 << ver):
+        return EUI(v, version=ver, dialect=dialect)
+    others = ([netaddr.mac_cisco, netaddr.mac_bare, netaddr.mac_unix_expanded, netaddr.mac_pgsql] if ver == 48 else
+              [netaddr.eui64_cisco, netaddr.eui64_bare, netaddr.eui64_unix_expanded, netaddr.eui64_base])
+    e = EUI(v ^ (1 << ((h >> 1) % ver)), version=ver, dialect=others[(h >> 8) % 4])
+    try:
+        _ = (hash(e), e == e, str(e), e.words, e.packed, e.bits(), e.ei, e[0], e.oui if False else None, int(e))
+    except Exception:
+        pass
+    if (h >> 12) & 1:
+        e.value = v
+        e.dialect = dialect
+    else:
+        e.dialect = dialect
+        e.value = v
+    return e
+
+
 def stale(n):
     """first attribute on which a network object differs from a fresh IPNetwork of its own
     (version, value, prefixlen); None when the object is coherent"""
